@@ -150,6 +150,7 @@ def binop_model(M, interp, op, a, b, node):
         raise AnalysisError(f'operator {op} on arrays not modelled', node)
     if op not in ARITH:
         raise AnalysisError(f'operator {op} not modelled', node)
+    note_int_arith(interp, (a, b), node)
     # datetime arithmetic keeps units
     kind = result_kind(a, b)
     if kind == 'series':
@@ -170,6 +171,14 @@ def binop_model(M, interp, op, a, b, node):
         return Sc(e.d, dt, unit)
     return Vec.fresh(out, kind=('nd' if kind in ('nd',) else kind), dtype=dt, unit=unit,
                      index=getattr(tmpl, 'index', None) if kind == 'series' else None)
+
+
+def note_int_arith(interp, operands, node):
+    """arithmetic carried out in an integer dtype on *data* (wrap-around / truncation depend on the carrier's dtype)"""
+    for v in operands:
+        if isinstance(v, Vec) and v.dtype in ('i8', 'u1') and any(X.data_atoms(e.d) for e in v.els()):
+            interp.event('int-arith', node=node)
+            return
 
 
 def dtype_of(v):
